@@ -270,7 +270,7 @@ func (w *SrvWork) Start() {
 			rt.SetName(fmt.Sprintf("client%d", ci))
 			rt.HarnessOnly()
 			ver := "9P2000"
-			if w.dotu {
+			if w.dotu != (ci > 0 && w.x.C.cfg("dotu_other") != 0) { // with dotu_other every connection but the first asks for the other dialect
 				ver = "9P2000.u"
 			}
 			cm := uint32(w.x.C.cfg("cmsize"))
